@@ -18,7 +18,7 @@ Definition post_loop (c : cmd) (st1 : ps) : res ps :=
 (** the occurrence groups the invocation gives to argument [i], computed from the invocation alone
     (C07's abstract fold: Append collects, Set keeps the last, Count counts, overrides remove) *)
 Definition denote_arg (c : cmd) (i : id) (its : list item) : option groups :=
-  fold_left (step_abs c i) (occs c its) None.
+  fold_left (step_abs c i) (occs c 1 its) None.
 
 Section Top.
 Variable c : cmd.
@@ -26,20 +26,20 @@ Hypothesis Hconv : conv c = true.
 Hypothesis Hie : is_set s_ignore_errors c = false.
 
 (** one level, no subcommand selected: the whole of [get_matches_with] on the rendered line *)
-Theorem gmw_items f its : wf_items c its = true ->
+Theorem gmw_items f its : wf_items c PSValuesDone 1 its = true ->
   get_matches_with (S f) c (render its) ps_new =
-  (do st1 <- react_all c (occs c its) ps_new; post_loop c st1).
+  (do st1 <- react_all c (occs c 1 its) ps_new; post_loop c st1).
 Proof.
   intros Hw. rewrite get_matches_with_unfold.
-  assert (Ec : cmdline_phase f c (render its) ps_new = apply_items c its ps_new).
+  assert (Ec : cmdline_phase f c (render its) ps_new = apply_items c 1 its ps_new).
   { unfold cmdline_phase. rewrite <- (app_nil_r (render its)).
-    rewrite (loop_items c Hconv its [] PSValuesDone 1 false ps_new Hw I eq_refl).
+    rewrite (loop_items c Hconv its [] PSValuesDone 1 false ps_new Hw I (pend_inv_none c PSValuesDone ps_new eq_refl) eq_refl).
     cbn [parse_loop]. rewrite rbind_assoc. cbn [rbind]. apply rbind_ret. }
-  rewrite Ec. pose proof (flush_items c Hconv its ps_new Hw) as F.
+  rewrite Ec. pose proof (flush_items c Hconv its PSValuesDone 1 ps_new Hw) as F.
   cbn [resolve_pending ps_new mt matcher_new mt_pending rbind] in F.
   change (mkPs matcher_new 0 None 0) with ps_new in F.
   rewrite <- F. rewrite Hie.
-  destruct (apply_items c its ps_new) as [st'|e s|n]; cbn [rbind]; reflexivity.
+  destruct (apply_items c 1 its ps_new) as [st'|e s|n]; cbn [rbind]; reflexivity.
 Qed.
 
 Lemma flags_occs_args fl : Forall (fun o => In (o_arg o) (c_args c)) (flags_occs c fl).
@@ -49,29 +49,30 @@ Proof.
   constructor; [apply (get_short_in c ch a G)|exact IH].
 Qed.
 
-Lemma occs_args its : Forall (fun o => In (o_arg o) (c_args c)) (occs c its).
+Lemma occs_args its : forall pos, Forall (fun o => In (o_arg o) (c_args c)) (occs c pos its).
 Proof.
-  induction its as [|it its IH]; [constructor|]. unfold occs. cbn [flat_map]. apply Forall_app. split; [|exact IH].
-  destruct it as [n|n v|n vs|fl t]; cbn [item_occs].
+  induction its as [|it its IH]; intros pos; [constructor|]. cbn [occs]. apply Forall_app. split; [|apply IH].
+  destruct it as [n|n v|n vs|fl t|vs]; cbn [item_occs].
   - destruct (get_long c n) as [a|] eqn:G; constructor; [apply (get_long_in c n a G)|constructor].
   - destruct (get_long c n) as [a|] eqn:G; constructor; [apply (get_long_in c n a G)|constructor].
   - destruct (get_long c n) as [a|] eqn:G; constructor; [apply (get_long_in c n a G)|constructor].
   - apply Forall_app. split; [apply flags_occs_args|].
     destruct t as [|o v|o v|o vs]; cbn [tail_occs]; try constructor;
       destruct (get_short c o) as [a|] eqn:G; constructor; try (apply (get_short_in c o a G)); constructor.
+  - destruct (get_pos c pos) as [a|] eqn:G; constructor; [apply (get_pos_in c pos a G)|constructor].
 Qed.
 
 (** the flushed command-line state holds, per argument, the invocation's occurrence groups *)
 Theorem react_all_occs_denote its st1 a : In a (c_args c) ->
-  react_all c (occs c its) ps_new = ROk st1 ->
+  react_all c (occs c 1 its) ps_new = ROk st1 ->
   groups_of (a_id a) (mt st1) = denote_arg c (a_id a) its /\ mt_pending (mt st1) = None.
 Proof.
   intros Ha H. pose proof (conv_app c Hconv) as HA.
-  assert (Hc : Forall (no_group_clash c (a_id a)) (occs c its)).
-  { eapply Forall_impl; [|apply occs_args]. intros o Ho. split.
+  assert (Hc : Forall (no_group_clash c (a_id a)) (occs c 1 its)).
+  { eapply Forall_impl; [|apply (occs_args its 1)]. intros o Ho. split.
     - apply (assert_app_group_ids c (o_arg o) HA Ho).
     - apply (assert_app_group_ids c a HA Ha). }
-  destruct (react_all_denote c (a_id a) (occs c its) ps_new st1 wf_m_new eq_refl Hc H) as [R [_ P]].
+  destruct (react_all_denote c (a_id a) (occs c 1 its) ps_new st1 wf_m_new eq_refl Hc H) as [R [_ P]].
   split; [exact R|exact P].
 Qed.
 
@@ -88,7 +89,7 @@ Qed.
     command: (1) if the invocation gives it occurrence groups [gs], the matches report exactly [gs];
     (2) every entry of the matches that is labelled command line reports exactly the groups the
     invocation gives to that argument (so nothing is invented or attributed to another argument). *)
-Theorem conservation f its st : wf_items c its = true ->
+Theorem conservation f its st : wf_items c PSValuesDone 1 its = true ->
   get_matches_with (S f) c (render its) ps_new = ROk st ->
   forall a, In a (c_args c) ->
     (forall gs, denote_arg c (a_id a) its = Some gs -> groups_of (a_id a) (mt st) = Some gs)
@@ -96,7 +97,7 @@ Theorem conservation f its st : wf_items c its = true ->
           denote_arg c (a_id a) its = Some (m_raw e)).
 Proof.
   intros Hw H a Ha. rewrite (gmw_items f its Hw) in H.
-  destruct (react_all c (occs c its) ps_new) as [st1|e s|n] eqn:E1; cbn [rbind] in H; try discriminate.
+  destruct (react_all c (occs c 1 its) ps_new) as [st1|e s|n] eqn:E1; cbn [rbind] in H; try discriminate.
   destruct (react_all_occs_denote its st1 a Ha E1) as [R P1].
   destruct (post_loop_ok st1 st H) as [st2 [E2 E3]].
   destruct (assert_app_ids_distinct c (conv_app c Hconv)) as [_ Hng]. specialize (Hng a Ha).
@@ -129,28 +130,28 @@ Proof.
 Qed.
 
 Theorem denote_append its a : no_overrides = true -> In a (c_args c) -> a_get_action a = AAppend ->
-  (0 < Actions.count_occ (a_id a) (occs c its))%nat ->
-  denote_arg c (a_id a) its = Some (occ_groups c (a_id a) (occs c its)).
+  (0 < Actions.count_occ (a_id a) (occs c 1 its))%nat ->
+  denote_arg c (a_id a) its = Some (occ_groups c (a_id a) (occs c 1 its)).
 Proof.
   intros Hno Ha Eact Hn. unfold denote_arg.
   assert (Hall : Forall (fun o => (o_arg o = a /\ is_cmdline (o_src o) && overridden c a (a_id a) = false)
-                                   \/ unrelated c (a_id a) o) (occs c its)).
-  { eapply Forall_impl; [|apply occs_args]. intros o Ho.
+                                   \/ unrelated c (a_id a) o) (occs c 1 its)).
+  { eapply Forall_impl; [|apply (occs_args its 1)]. intros o Ho.
     destruct (beq (a_id (o_arg o)) (a_id a)) eqn:E.
     - left. apply beq_eq in E. split; [apply (ids_unique c _ _ (conv_app c Hconv) Ho Ha E)|].
       rewrite (no_overrides_spec Hno a (a_id a) Ha). apply andb_false_r.
     - right. split; [exact E|]. rewrite (no_overrides_spec Hno _ (a_id a) Ho). apply andb_false_r. }
-  destruct (abs_append c a Eact (occs c its) None Hall) as [A1 A2].
+  destruct (abs_append c a Eact (occs c 1 its) None Hall) as [A1 A2].
   cbn [opt_default app] in A1.
-  assert (S : is_some (fold_left (step_abs c (a_id a)) (occs c its) None) = true) by (apply A2; right; exact Hn).
-  destruct (fold_left (step_abs c (a_id a)) (occs c its) None) as [gs|]; [|discriminate].
+  assert (S : is_some (fold_left (step_abs c (a_id a)) (occs c 1 its) None) = true) by (apply A2; right; exact Hn).
+  destruct (fold_left (step_abs c (a_id a)) (occs c 1 its) None) as [gs|]; [|discriminate].
   cbn [opt_default] in A1. rewrite A1. reflexivity.
 Qed.
 
-Theorem conservation_append f its st a : wf_items c its = true -> no_overrides = true ->
+Theorem conservation_append f its st a : wf_items c PSValuesDone 1 its = true -> no_overrides = true ->
   get_matches_with (S f) c (render its) ps_new = ROk st ->
-  In a (c_args c) -> a_get_action a = AAppend -> (0 < Actions.count_occ (a_id a) (occs c its))%nat ->
-  groups_of (a_id a) (mt st) = Some (occ_groups c (a_id a) (occs c its)).
+  In a (c_args c) -> a_get_action a = AAppend -> (0 < Actions.count_occ (a_id a) (occs c 1 its))%nat ->
+  groups_of (a_id a) (mt st) = Some (occ_groups c (a_id a) (occs c 1 its)).
 Proof.
   intros Hw Hno H Ha Eact Hn.
   destruct (conservation f its st Hw H a Ha) as [C1 _]. apply C1. apply denote_append; assumption.
